@@ -1,3 +1,4 @@
+import Panacea.Generated.Facts
 import Panacea.Lemmas.Bank
 /-!
 # C07 — Burn address is a sink: emptied every block, supply shrinks by exactly that
@@ -126,4 +127,19 @@ example : (burnEndBlockOld witness burnA modA).supply aaa = 10 := by decide
 /-- the repaired end-blocker on the same state burns exactly the spendable 10 `aaa` -/
 example : (burnEndBlock witness burnA modA).supply aaa = 0 ∧ (burnEndBlock witness burnA modA).bal burnA umed = 5 := by decide
 
+end Panacea.C07
+
+namespace Panacea.C07
+/-- Over the regenerated table of end-blockers (`app.go`, `SetOrderEndBlockers`): the burn runs after every
+end-blocker that can move coins (governance executes passed proposals and refunds deposits, staking completes
+unbondings, group and feegrant prune and pay back), so whatever they send to the burn address is burned in the
+same block — "at the end of every block the spendable balance of the burn address is zero". -/
+theorem burn_after_coin_moving_endblockers :
+    ∀ m ∈ ["crisis", "gov", "staking", "bank", "distribution", "feegrant", "group", "transfer", "ibc"],
+      Generated.endBlockers.idxOf m < Generated.endBlockers.idxOf "burn" := by decide
+
+/-- … and only the custom modules' own (empty) end-blockers come after it. -/
+theorem only_custom_modules_after_burn :
+    Generated.endBlockers.drop (Generated.endBlockers.idxOf "burn" + 1) = ["pnft"] ∨
+    Generated.endBlockers.drop (Generated.endBlockers.idxOf "burn" + 1) = [] := by decide
 end Panacea.C07
